@@ -11,7 +11,8 @@ import itertools
 
 from mc.common import Ctx, pmap, rotate
 from mc.fd import build
-from mc.refconstraint import And, Atom, Child, Desc, Idx, Or, Quant, Slc, Sym, Var, from_snapshot, holds, merge_whole, text
+from mc.refconstraint import And, Atom, Bare, Child, Desc, Idx, Or, Quant, Slc, Sym, Var, from_snapshot, holds, merge_whole, text
+from mc.refconstraint import readings as all_readings
 from mc.refgrammar import Alt, Lit, NT, Opt, Plus, RefGrammar, Seq, enum_trees
 
 LEVEL = "model_checking"
@@ -115,6 +116,33 @@ def formulas(which: str, tier: str) -> list:
             for body in [Atom('str({0}) == "1"', (bsym,), cmp=True), Atom('int({0}) > 1', (bsym,), cmp=True), Atom('{0} != "a"', (bsym,), cmp=True),
                          Atom('str({0}).isdigit()', (bsym,)), Atom('{0} == "1"', (Desc(bsym, "<d>"),), cmp=True), Atom('int({0}) > 1', (Child(bsym, "<d>"),), cmp=True)]:
                 out.append(Quant(kind, "<q>", qs, body))
+    # connectives inside quantifier bodies (the bound variable must reach both operands; lazy mode short-circuits)
+    for qs in qsels[:5]:
+        for kind in ("any", "all"):
+            b = bodies_py("x")
+            for x, y in ((b[0], b[1]), (b[1], b[2]), (b[2], b[3]), (b[3], b[0])):
+                out.append(Quant(kind, "x", qs, And(x, y)))
+                out.append(Quant(kind, "x", qs, Or(x, y)))
+                out.append(Quant(kind, "x", qs, Bare(And(x, y))))
+                out.append(Quant(kind, "x", qs, Bare(Or(x, y))))
+                out.append(Quant(kind, "x", qs, Bare(Or(x, And(y, x)))))
+        for kind in ("exists", "forall"):
+            bs = Sym("<q>")
+            b = [Atom('str({0}) == "1"', (bs,), cmp=True), Atom('int({0}) > 1', (bs,), cmp=True), Atom('{0} != "a"', (bs,), cmp=True), Atom('str({0}).isdigit()', (bs,))]
+            for x, y in ((b[0], b[1]), (b[1], b[2]), (b[2], b[3]), (b[3], b[0])):
+                out.append(Quant(kind, "<q>", qs, And(x, y)))
+                out.append(Quant(kind, "<q>", qs, Or(x, y)))
+                out.append(Quant(kind, "<q>", qs, Bare(And(x, y))))
+                out.append(Quant(kind, "<q>", qs, Bare(Or(x, y))))
+    # nested python-style quantifiers with a bare conjunction in the innermost body
+    for k1 in ("any", "all"):
+        for k2 in ("any", "all"):
+            out.append(Quant(k1, "x", sels[1], Quant(k2, "y", sels[0], Bare(And(Atom('int(y) > 0', cmp=True), Atom('str(y) <= str(x)', cmp=True))))))
+    # [:n] / [n:] / negative slices
+    for base in ([Sym("<a>"), Sym("<b>")] if which == "G1" else [Sym("<e>")]):
+        for lo, hi in ((None, 1), (None, 2), (1, None), (-1, None), (None, -1), (0, 1), (1, 3)):
+            out.append(Atom('str({0}) == "1"', (Slc(base, lo, hi),), cmp=True))
+            out.append(Atom('len(str({0})) == 1', (Slc(base, lo, hi),), cmp=True))
     # nested quantifiers that rebind / combine scopes
     outer = [sels[1] if which == "G2" else Sym("<a>"), Sym("<start>")]
     for o in outer:
@@ -185,7 +213,7 @@ def work(item):
     for snapshot in trees_for(which, tier):
         tree = from_snapshot(snapshot)
         want = holds(f, tree)
-        readings = [f] + ([whole] if whole is not None and whole is not f else [])
+        readings = all_readings(f)
         wants = {holds(r, tree) for r in readings}
         got_e = real_check(ce, tree)
         got_l = real_check(cl, from_snapshot(snapshot))
